@@ -57,6 +57,7 @@ type histOut struct {
 	ID     int         `json:"id"`
 	Cfg    string      `json:"cfg"`
 	Nofile int         `json:"nofile"`
+	Reused bool        `json:"reused"` // the container had served an earlier history (and was seen empty)
 	Ev     []histEvOut `json:"ev"`
 	Setup  string      `json:"setup,omitempty"` // non-empty: the driver could not run the history
 }
@@ -68,7 +69,41 @@ func clip(s string, n int) string {
 	return s
 }
 
-func runHistory(h histIn, probeDir, scratch string) histOut {
+// A worker keeps one container per configuration and reuses it for its next history of that
+// configuration, like a pool does -- but only if the last thing the host saw in it was that every
+// mount holds nothing except the mount points of the configuration; otherwise (and after any
+// trouble) the container is destroyed and the next history gets a fresh one.
+type resetWorker struct {
+	probeDir, scratch string
+	envs              map[string]*env
+}
+
+func (w *resetWorker) close() {
+	for _, e := range w.envs {
+		e.destroy()
+	}
+}
+
+func onlyMountPoints(mounts []string, ls []listing) bool {
+	base := map[string]bool{}
+	for _, m := range mounts {
+		base[m[strings.LastIndex(m, "/")+1:]] = true
+	}
+	for _, l := range ls {
+		if l.N < 0 || l.N > len(l.Names) {
+			return false
+		}
+		for _, n := range l.Names {
+			if !base[n] {
+				return false
+			}
+		}
+	}
+	return true
+}
+
+func (w *resetWorker) runHistory(h histIn) histOut {
+	probeDir, scratch := w.probeDir, w.scratch
 	out := histOut{ID: h.ID, Cfg: h.Cfg.Name, Ev: []histEvOut{}}
 	var rl syscall.Rlimit
 	if err := syscall.Getrlimit(syscall.RLIMIT_NOFILE, &rl); err == nil && rl.Max < 1<<30 {
@@ -76,16 +111,33 @@ func runHistory(h histIn, probeDir, scratch string) histOut {
 	} else {
 		out.Nofile = 1 << 30
 	}
-	e, err := buildEnv(envCfg{Mounts: h.Cfg.Mounts, Cred: h.Cfg.Cred}, probeDir, scratch)
-	if err != nil {
-		out.Setup = err.Error()
-		return out
+	if w.envs == nil {
+		w.envs = map[string]*env{}
 	}
-	defer e.destroy()
+	e := w.envs[h.Cfg.Name]
+	delete(w.envs, h.Cfg.Name)
+	out.Reused = e != nil
+	if e == nil {
+		var err error
+		e, err = buildEnv(envCfg{Mounts: h.Cfg.Mounts, Cred: h.Cfg.Cred}, probeDir, scratch)
+		if err != nil {
+			out.Setup = err.Error()
+			return out
+		}
+	}
+	clean := false
+	defer func() {
+		if clean && out.Setup == "" && !e.dead {
+			w.envs[h.Cfg.Name] = e
+		} else {
+			e.destroy()
+		}
+	}()
 	nrun := 0
 	for _, ev := range h.Ev {
 		switch ev.E {
 		case "run":
+			clean = false
 			nrun++
 			tag := "r" + strconv.Itoa(nrun)
 			args := []string{"/probe/contfs", "plant", tag}
@@ -117,6 +169,7 @@ func runHistory(h histIn, probeDir, scratch string) histOut {
 				ho.Ls = append(ho.Ls, e.hostList(m))
 			}
 			out.Ev = append(out.Ev, ho)
+			clean = onlyMountPoints(h.Cfg.Mounts, ho.Ls)
 			pl, r := e.progList(h.Cfg.Mounts)
 			po := histEvOut{E: "list", By: "prog", Status: r.Status, Err: clip(r.Err+r.Errs, 300), Ls: []listing{}}
 			for _, m := range h.Cfg.Mounts {
@@ -160,9 +213,11 @@ func resetMain(args []string) error {
 		wg.Add(1)
 		go func() {
 			defer wg.Done()
+			w := &resetWorker{probeDir: args[2], scratch: args[3]}
 			for i := range ch {
-				res[i] = runHistory(hs[i], args[2], args[3])
+				res[i] = w.runHistory(hs[i])
 			}
+			w.close()
 		}()
 	}
 	for i := range hs {
